@@ -338,6 +338,20 @@ def bounded(tier, seed):
             ok, obs = False, f"{text if 'text' in dir() else src}: {e!r}"
         if not ok:
             fails.append({"id": f"bounded:round-trip[pattern without a literal form: {shape}]", "input": src, "observed": obs, "expected": "an equal pattern rendering to the same text"})
+    # the text depends only on the value: a container that was rendered before and whose held value is then changed in place renders as
+    # the value it is now (equal to a freshly written literal of that value)
+    for src in ("def m = <<<'a' => [1]>>>; string(m); append(m['a'], 2); [string(m) == string(<<<'a' => [1, 2]>>>), string([m]) == string([<<<'a' => [1, 2]>>>])]",
+                "def m = <<<1 => ['x']>>>; string(m); m[1][0] = 'z'; string(m) == string(<<<1 => ['z']>>>)",
+                "def m = <<<'in' => <<<'k' => FALSE>>> >>>; string(m); m['in']['k'] = TRUE; string(m) == string(<<<'in' => <<<'k' => TRUE>>> >>>)",
+                "def s = <<1>>; def m = <<<'s' => s>>>; string(m); append(s, 2); string(m) == string(<<<'s' => <<1, 2>> >>>)",
+                "def l = [[1]]; string(l); append(l[0], 2); string(l) == string([[1, 2]])", "def s = << [1] >>; string(s); def o = <*a = [1]*>; string(o); append(o->a, 2); string(o) == string(<*a = [1, 2]*>)"):
+        ev += 1
+        try:
+            obs = str(I.interpret(src, "-"))
+        except Exception as e:
+            obs = repr(e)
+        if obs not in ("TRUE", "[TRUE, TRUE]"):
+            fails.append({"id": "bounded:rendered-before-then-changed-renders-as-the-value-it-is-now", "input": src, "observed": obs, "expected": "TRUE"})
     # equal containers built in different orders render identically - also when the orders differ in which of two equal
     # numbers (1 and 1.0) comes first
     for a, b in (("<<1, 1.0>>", "<<1.0, 1>>"), ("<<<1 => 'a', 1.0 => 'b'>>>", "<<<1.0 => 'a', 1 => 'b'>>>"), ("<<2, 1, 3>>", "<<3, 2, 1>>"),
